@@ -546,7 +546,12 @@ impl Ctx {
         env.materialise(s);
         let initial = env.snapshot();
         let edits = self.edits_enc(txn);
-        let op = format!("steps {} {}", self.store_enc(s, &initial), edits);
+        let opname = match mode {
+            "u" => "stepsu",
+            "r" => "stepsr",
+            _ => "steps",
+        };
+        let op = format!("{opname} {} {}", self.store_enc(s, &initial), edits);
         let key_base = format!("{mode} {} {}", self.store_enc(s, &initial), edits);
         self.rep.bucket(&format!("mode:{mode}"));
 
@@ -558,11 +563,9 @@ impl Ctx {
         }
         let final_snap = self.env.snapshot();
         let ops = canonical_ops(&sys, &initial);
-        if mode == "d" {
+        {
             let obs = if ops.is_empty() { "-".to_string() } else { ops.join(" ") };
             self.rep.case(&op, &obs, true);
-        } else {
-            self.rep.oracle_only(&format!("crash {key_base}"), true);
         }
         self.rep.bucket(&format!("steps:{}", (ops.len() / 4 * 4).min(24)));
 
@@ -1029,11 +1032,17 @@ fn real_main() {
     if let Some(ops) = replay_ops(&args) {
         for op in ops {
             let a: Vec<&str> = op.split(' ').collect();
-            if a.len() != 6 || a[0] != "steps" {
+            let mode = match a.first() {
+                Some(&"steps") => "d",
+                Some(&"stepsu") => "u",
+                Some(&"stepsr") => "r",
+                _ => continue,
+            };
+            if a.len() != 6 {
                 continue;
             }
             if let Some((s, txn)) = parse_case(&ctx.env, &a[1..]) {
-                ctx.do_txn(&s, &txn, "d", true);
+                ctx.do_txn(&s, &txn, mode, true);
             }
         }
         ctx.rep.finish();
@@ -1061,7 +1070,8 @@ fn real_main() {
         let (s, txn) = gen_case(&mut rng);
         if !txn.is_empty() {
             ctx.rep.bucket("steps-only");
-            ctx.do_txn(&s, &txn, "d", false);
+            let mode = *rng.pick(&["d", "d", "u", "r"]);
+            ctx.do_txn(&s, &txn, mode, false);
         }
     }
     let points = ctx.points;
